@@ -138,7 +138,7 @@ def RCS_call(p, inst):
 def SCR_call(p, inst):
   rl, pl, ul, gl = inst.rl, inst.pl, inst.ul, inst.gl
   rr, pr, ur, gr = inst.rr, inst.pr, inst.ur, inst.gr
-  return rarefaction(p,pr,rr,ur,gr,inst) - shock(p,pl,rl,ul,gl,inst)
+  return shock(p,pl,rl,-ul,gl,inst) - rarefaction(p,pr,rr,-ur,gr,inst)
 
 def RCR_call(p, inst):
   rl, pl, ul, gl = inst.rl, inst.pl, inst.ul, inst.gl
